@@ -124,6 +124,9 @@ var c18Scenarios = []c18Scenario{
 		}
 		return ""
 	}},
+	// two fields of a line renamed onto one label: whichever wins, it wins every time
+	{name: "logfmt-two-onto-one-2", n: 2, msg: func(i, j int) string { return fmt.Sprintf("level=l%d severity=s%d x=%d", i, j, i+j) }, query: `{} | logfmt lvl="level", lvl="severity" | keep lvl, container`, params: c18Log()},
+	{name: "json-two-onto-one-count-2", n: 2, msg: func(i, j int) string { return fmt.Sprintf(`{"level":"l%d","severity":"s%d"}`, i, j) }, query: `sum by (lvl) (count_over_time({} | json lvl="level", lvl="severity" [4s]))`, params: c18Range()},
 	// containers created inside the queried range (after its start), next to older ones; the daemon honours since/until
 	{name: "young-log-3", n: 3, query: `{}`, params: c18Log(), created: func(i int) int64 { return []int64{0, 2, 0}[i] }},
 	{name: "young-count-3", n: 3, query: `sum(count_over_time({}[4s]))`, params: c18Range(), created: func(i int) int64 { return []int64{3, 0, 2}[i] }},
